@@ -277,7 +277,7 @@ def pick_rect(v: View, rng: random.Random, kind: str):
         n = rng.choice(v.exprs)
         return v.rect(n), {'node': n}
     if kind == 'stmt' and v.stmts:
-        n = rng.choice([s for s in v.stmts if isinstance(s, ast.stmt) and not v.is_elif(s)] or v.stmts)
+        n = rng.choice([s for s in v.stmts if isinstance(s, ast.stmt)] or v.stmts)
         r = v.rect(n)
         for d in getattr(n, 'decorator_list', None) or []:
             r = min(r[:2], v.rect(d)[:2]) + r[2:]
@@ -519,8 +519,11 @@ PROFILES = {
     # 'inline': clean-class edits only inside statements (node-boundary replacement by the same category, token
     # mutation, identity), used on INLINE_PROGRAMS where almost every statement is an inline one after multi-byte text
     'inline': {'node': 6, 'tok': 4},
-    # rect kind weights; 'clean' = classes that are quiet on the pinned tree (regressions there must not hide)
-    'clean': {'node': 5, 'stmt': 4, 'newline-stmt': 4, 'tok': 3},
+    # rect kind weights.  'clean' = statement-shaped requests (node / statement / new statement line / token), which
+    # since the reparser fixes (e567fb3, b8b004e, 16eaee8) also include the shapes that used to be known findings:
+    # new statement line at column 0 of a top-level statement, whole-statement replacement called on a statement
+    # node, whole `elif` replacement, indentation and whole-line edits; 'wild' = everything
+    'clean': {'node': 5, 'stmt': 4, 'newline-stmt': 3, 'newline-stmt0': 3, 'tok': 3, 'elif-whole': 1, 'indent': 1, 'lines': 1},
     'wild': {'node': 2, 'stmt': 2, 'newline-stmt': 1, 'newline-stmt0': 1, 'tok': 3, 'tokrange': 3, 'intok': 3, 'span': 3, 'lines': 3,
              'indent': 3, 'point': 4, 'random': 3, 'header': 3, 'stmt-tail': 2, 'stmt-head': 2, 'gap': 2,
              'elif-whole': 2},
@@ -752,7 +755,7 @@ def run_history(rec: RawRecorder, tid: int, seed: int, src: str, nsteps: int, pr
                                 'path': [[f, -1 if i is None else i] for f, i in _path_of(v.tree, n)]}
                 if plan and plan['call'] == 'put_src' and rng.random() < 0.3 and v.exprs:
                     # put_src may be called on any node of the tree: `self` must not matter
-                    n = rng.choice(v.exprs + (v.stmts if profile not in CLEAN_PROFILES else []))
+                    n = rng.choice(v.exprs + (v.stmts if profile != 'inline' else []))
                     plan['via'] = [[f, -1 if i is None else i] for f, i in _path_of(v.tree, n)]
                     plan['self'] = 'stmt' if isinstance(n, (ast.stmt, ast.ExceptHandler, ast.match_case)) else 'expr'
                 if plan and plan['call'] in ('put_src', 'put_none') and profile not in CLEAN_PROFILES and rng.random() < 0.15:
